@@ -80,6 +80,17 @@ def mapCols {μ} (g : Column → Option Column) : List (ColSpec μ) → Option (
     | some x, some r => some ({ c with content := x } :: r)
     | _, _ => none
 
+/-- the key columns named by `by_` (most significant first): each must exist and hold numbers -/
+def keyCols {μ} (cols : List (ColSpec μ)) : List String → Option (List (List Int))
+  | [] => some []
+  | k :: ks =>
+    match cols.find? (fun c => c.name == k) with
+    | some c =>
+      match c.content, keyCols cols ks with
+      | .nums xs, some r => some (xs :: r)
+      | _, _ => none
+    | none => none
+
 /-! ### sorting: the stable permutation ordering the key tuples lexicographically -/
 
 /-- lexicographic `≤` on key tuples -/
